@@ -41,6 +41,9 @@ def eventV1__newEventFromUntrustedJSONV1 : List String := [
   "if err := roomVersion.CheckCanonicalJSON(eventJSON); err != nil {",
   "return nil, BadJSONError{err}",
   "}",
+  "if err := checkUntrustedEventJSON(eventJSON); err != nil {",
+  "return nil, err",
+  "}",
   "res := &eventV1{}",
   "res.roomVersion = roomVersion.Version()",
   "var err error",
@@ -80,6 +83,22 @@ def eventV1__newEventFromUntrustedJSONV1 : List String := [
   "}",
   "err = CheckFields(res)",
   "return res, err"
+]
+
+def eventV1__signableEventJSON : List String := [
+  "func func(eventJSON []byte) []byte",
+  "signatures := gjson.GetBytes(eventJSON, \"signatures\")",
+  "if !signatures.Exists() {",
+  "return eventJSON",
+  "}",
+  "var decoded map[string]map[KeyID]spec.Base64Bytes",
+  "if json.Unmarshal([]byte(signatures.Raw), &decoded) == nil {",
+  "return eventJSON",
+  "}",
+  "if withoutSignatures, err := sjson.DeleteBytes(eventJSON, \"signatures\"); err == nil {",
+  "return withoutSignatures",
+  "}",
+  "return eventJSON"
 ]
 
 def eventV1_eventV1_AuthEventIDs : List String := [
@@ -282,16 +301,16 @@ def eventV1_eventV1_SetUnsignedField : List String := [
 
 def eventV1_eventV1_Sign : List String := [
   "func func(signingName string, keyID KeyID, privateKey ed25519.PrivateKey) PDU",
-  "eventJSON, err := signEvent(signingName, keyID, privateKey, e.eventJSON, e.roomVersion)",
+  "eventJSON, err := signEvent(signingName, keyID, privateKey, signableEventJSON(e.eventJSON), e.roomVersion)",
   "if err != nil {",
   "panic(fmt.Errorf(\"gomatrixserverlib: invalid event %v (%q)\", err, string(e.eventJSON)))",
   "}",
   "if eventJSON, err = EnforcedCanonicalJSON(eventJSON, e.roomVersion); err != nil {",
   "panic(fmt.Errorf(\"gomatrixserverlib: invalid event %v (%q)\", err, string(e.eventJSON)))",
   "}",
-  "res := &e",
-  "(*res).eventJSON = eventJSON",
-  "return *res"
+  "result := *e",
+  "result.eventJSON = eventJSON",
+  "return &result"
 ]
 
 def eventV1_eventV1_StateKey : List String := [
@@ -421,6 +440,7 @@ def eventV2__newEventFromTrustedJSONV2 : List String := [
   "res.roomVersion = roomVersion.Version()",
   "res.redacted = redacted",
   "res.eventJSON = eventJSON",
+  "res.EventIDRaw = \"\"",
   "if err := res.populateEventID(roomVersion); err != nil {",
   "return nil, err",
   "}",
@@ -450,6 +470,9 @@ def eventV2__newEventFromUntrustedJSONV2 : List String := [
   "}",
   "if err := roomVersion.CheckCanonicalJSON(eventJSON); err != nil {",
   "return nil, BadJSONError{err}",
+  "}",
+  "if err := checkUntrustedEventJSON(eventJSON); err != nil {",
+  "return nil, err",
   "}",
   "res := &eventV2{}",
   "var err error",
@@ -589,16 +612,16 @@ def eventV2_eventV2_SetUnsigned : List String := [
 
 def eventV2_eventV2_Sign : List String := [
   "func func(signingName string, keyID KeyID, privateKey ed25519.PrivateKey) PDU",
-  "eventJSON, err := signEvent(signingName, keyID, privateKey, e.eventJSON, e.roomVersion)",
+  "eventJSON, err := signEvent(signingName, keyID, privateKey, signableEventJSON(e.eventJSON), e.roomVersion)",
   "if err != nil {",
   "panic(fmt.Errorf(\"gomatrixserverlib: invalid event %v (%q)\", err, string(e.eventJSON)))",
   "}",
   "if eventJSON, err = EnforcedCanonicalJSON(eventJSON, e.roomVersion); err != nil {",
   "panic(fmt.Errorf(\"gomatrixserverlib: invalid event %v (%q)\", err, string(e.eventJSON)))",
   "}",
-  "res := &e",
-  "(*res).eventJSON = eventJSON",
-  "return *res"
+  "result := *e",
+  "result.eventJSON = eventJSON",
+  "return &result"
 ]
 
 def eventV2_eventV2_populateEventID : List String := [
@@ -617,6 +640,14 @@ def eventV2_eventV2_populateEventID : List String := [
 def eventV3__checkRoomID : List String := [
   "func func(res *eventV3) error",
   "isCreateEvent := res.Type() == spec.MRoomCreate && res.StateKeyEquals(\"\")",
+  "if isCreateEvent {",
+  "if l := utf8.RuneCountInString(res.eventFields.RoomID); l > maxIDLength {",
+  "return EventValidationError{Code: EventValidationTooLarge, Message: fmt.Sprintf(\"gomatrixserverlib: room ID is too long, length %d > maximum %d\", l, maxIDLength)}",
+  "}",
+  "if l := len(res.eventFields.RoomID); l > maxIDLength {",
+  "return EventValidationError{Code: EventValidationTooLarge, Message: fmt.Sprintf(\"gomatrixserverlib: room ID is too long, length %d bytes > maximum %d bytes\", l, maxIDLength)}",
+  "}",
+  "}",
   "if !isCreateEvent && !strings.HasPrefix(res.eventFields.RoomID, \"!\") {",
   "return fmt.Errorf(\"gomatrixserverlib: room_id must start with !\")",
   "}",
@@ -640,6 +671,7 @@ def eventV3__newEventFromTrustedJSONV3 : List String := [
   "res.roomVersion = roomVersion.Version()",
   "res.redacted = redacted",
   "res.eventJSON = eventJSON",
+  "res.EventIDRaw = \"\"",
   "if err := res.populateEventID(roomVersion); err != nil {",
   "return nil, err",
   "}",
@@ -669,6 +701,9 @@ def eventV3__newEventFromUntrustedJSONV3 : List String := [
   "}",
   "if err := roomVersion.CheckCanonicalJSON(eventJSON); err != nil {",
   "return nil, BadJSONError{err}",
+  "}",
+  "if err := checkUntrustedEventJSON(eventJSON); err != nil {",
+  "return nil, err",
   "}",
   "res := &eventV3{}",
   "var err error",
@@ -741,6 +776,20 @@ def eventV3_eventV3_RoomID : List String := [
   "panic(fmt.Errorf(\"RoomID is invalid: %w\", err))",
   "}",
   "return *roomID"
+]
+
+def eventV3_eventV3_SetUnsigned : List String := [
+  "func func(unsigned interface{}) (PDU, error)",
+  "res, err := e.eventV2.SetUnsigned(unsigned)",
+  "if err != nil {",
+  "return nil, err",
+  "}",
+  "return &eventV3{eventV2: *res.(*eventV2)}, nil"
+]
+
+def eventV3_eventV3_Sign : List String := [
+  "func func(signingName string, keyID KeyID, privateKey ed25519.PrivateKey) PDU",
+  "return &eventV3{eventV2: *e.eventV2.Sign(signingName, keyID, privateKey).(*eventV2)}"
 ]
 
 def event_builder_EventBuilder_AddAuthEvents : List String := [
@@ -891,7 +940,7 @@ def eventcrypto__VerifyEventSignatures : List String := [
   "}",
   "}",
   "if e.Type() == spec.MRoomMember {",
-  "membership, err := e.Membership()",
+  "membership, err := membershipForSignatures(e)",
   "if err != nil {",
   "return fmt.Errorf(\"failed to get membership of membership event: %w\", err)",
   "}",
@@ -899,6 +948,9 @@ def eventcrypto__VerifyEventSignatures : List String := [
   "mapping, err := getMXIDMapping(e)",
   "if err != nil {",
   "return err",
+  "}",
+  "if mapping.UserRoomKey != e.SenderID() {",
+  "return fmt.Errorf(\"mxid_mapping is for %q, not for the sender %q\", mapping.UserRoomKey, e.SenderID())",
   "}",
   "err = validateMXIDMappingSignatures(ctx, e, *mapping, verifier, verImpl)",
   "if err != nil {",
@@ -1014,13 +1066,21 @@ def eventcrypto__emptyAuthorisedViaServerName : List String := [
 
 def eventcrypto__extractAuthorisedViaServerName : List String := [
   "func func(content []byte) (spec.ServerName, error)",
-  "if v := gjson.GetBytes(content, \"join_authorised_via_users_server\"); v.Exists() {",
-  "_, serverName, err := SplitID('@', v.String())",
+  "var members map[string]json.RawMessage",
+  "if err := json.Unmarshal(content, &members); err != nil {",
+  "return \"\", fmt.Errorf(\"failed to read member content: %w\", err)",
+  "}",
+  "if v, ok := members[\"join_authorised_via_users_server\"]; ok {",
+  "var userID string",
+  "if err := json.Unmarshal(v, &userID); err != nil {",
+  "return \"\", fmt.Errorf(\"failed to read authorised user: %w\", err)",
+  "}",
+  "_, serverName, err := SplitID('@', userID)",
   "if err != nil {",
   "return \"\", fmt.Errorf(\"failed to split authorised server: %w\", err)",
   "}",
   "if serverName == \"\" {",
-  "return \"\", fmt.Errorf(\"authorised user %q has no server name\", v.String())",
+  "return \"\", fmt.Errorf(\"authorised user %q has no server name\", userID)",
   "}",
   "return serverName, nil",
   "}",
@@ -1030,7 +1090,11 @@ def eventcrypto__extractAuthorisedViaServerName : List String := [
 def eventcrypto__getMXIDMapping : List String := [
   "func func(e PDU) (*MXIDMapping, error)",
   "var content MemberContent",
-  "err := json.Unmarshal(e.Content(), &content)",
+  "exact, err := exactFieldsOnly(e.Content(), &content)",
+  "if err != nil {",
+  "return nil, err",
+  "}",
+  "err = json.Unmarshal(exact, &content)",
   "if err != nil {",
   "return nil, err",
   "}",
@@ -1038,6 +1102,22 @@ def eventcrypto__getMXIDMapping : List String := [
   "return nil, fmt.Errorf(\"missing mxid_mapping\")",
   "}",
   "return content.MXIDMapping, nil"
+]
+
+def eventcrypto__membershipForSignatures : List String := [
+  "func func(e PDU) (string, error)",
+  "var content struct { Membership string `json:\"membership\"` }",
+  "exact, err := exactFieldsOnly(e.Content(), &content)",
+  "if err != nil {",
+  "return \"\", err",
+  "}",
+  "if err = json.Unmarshal(exact, &content); err != nil {",
+  "return \"\", err",
+  "}",
+  "if e.StateKey() == nil {",
+  "return \"\", fmt.Errorf(\"gomatrixserverlib: not a m.room.member event, missing state key\")",
+  "}",
+  "return content.Membership, nil"
 ]
 
 def eventcrypto__referenceOfEvent : List String := [
@@ -1187,6 +1267,6 @@ def pdu_eventReference_UnmarshalJSON : List String := [
   "return nil"
 ]
 
-def functions : List String := ["eventV1.go:.newEventFromTrustedJSONV1", "eventV1.go:.newEventFromTrustedJSONWithEventIDV1", "eventV1.go:.newEventFromUntrustedJSONV1", "eventV1.go:eventV1.AuthEventIDs", "eventV1.go:eventV1.Content", "eventV1.go:eventV1.Depth", "eventV1.go:eventV1.EventID", "eventV1.go:eventV1.HistoryVisibility", "eventV1.go:eventV1.IsSticky", "eventV1.go:eventV1.JSON", "eventV1.go:eventV1.JoinRule", "eventV1.go:eventV1.MarshalJSON", "eventV1.go:eventV1.Membership", "eventV1.go:eventV1.OriginServerTS", "eventV1.go:eventV1.PowerLevels", "eventV1.go:eventV1.PrevEventIDs", "eventV1.go:eventV1.Redact", "eventV1.go:eventV1.Redacted", "eventV1.go:eventV1.Redacts", "eventV1.go:eventV1.RoomID", "eventV1.go:eventV1.SenderID", "eventV1.go:eventV1.SetUnsigned", "eventV1.go:eventV1.SetUnsignedField", "eventV1.go:eventV1.Sign", "eventV1.go:eventV1.StateKey", "eventV1.go:eventV1.StateKeyEquals", "eventV1.go:eventV1.StickyEndTime", "eventV1.go:eventV1.ToHeaderedJSON", "eventV1.go:eventV1.Type", "eventV1.go:eventV1.Unsigned", "eventV1.go:eventV1.Version", "eventV1.go:eventV1.assumedStickyStartTime", "eventV1.go:eventV1.calculatedStickyEndTime", "eventV2.go:.CheckFields", "eventV2.go:.newEventFromTrustedJSONV2", "eventV2.go:.newEventFromTrustedJSONWithEventIDV2", "eventV2.go:.newEventFromUntrustedJSONV2", "eventV2.go:eventV2.AuthEventIDs", "eventV2.go:eventV2.EventID", "eventV2.go:eventV2.MarshalJSON", "eventV2.go:eventV2.PrevEventIDs", "eventV2.go:eventV2.Redact", "eventV2.go:eventV2.SenderID", "eventV2.go:eventV2.SetUnsigned", "eventV2.go:eventV2.Sign", "eventV2.go:eventV2.populateEventID", "eventV3.go:.checkRoomID", "eventV3.go:.newEventFromTrustedJSONV3", "eventV3.go:.newEventFromTrustedJSONWithEventIDV3", "eventV3.go:.newEventFromUntrustedJSONV3", "eventV3.go:eventV3.AuthEventIDs", "eventV3.go:eventV3.RoomID", "event_builder.go:EventBuilder.AddAuthEvents", "event_builder.go:EventBuilder.Build", "event_builder.go:EventBuilder.SetContent", "event_builder.go:EventBuilder.SetUnsigned", "event_builder.go:.eventHashFromEventID", "event_builder.go:.toEventReference", "eventcrypto.go:.VerifyAllEventSignatures", "eventcrypto.go:.VerifyEventSignatures", "eventcrypto.go:.addContentHashesToEvent", "eventcrypto.go:.checkEventContentHash", "eventcrypto.go:.emptyAuthorisedViaServerName", "eventcrypto.go:.extractAuthorisedViaServerName", "eventcrypto.go:.getMXIDMapping", "eventcrypto.go:.referenceOfEvent", "eventcrypto.go:.referenceOfEventForVersion", "eventcrypto.go:.signEvent", "eventcrypto.go:.validateMXIDMappingSignatures", "pdu.go:.ToPDUs", "pdu.go:eventReference.MarshalJSON", "pdu.go:eventReference.UnmarshalJSON"]
+def functions : List String := ["eventV1.go:.newEventFromTrustedJSONV1", "eventV1.go:.newEventFromTrustedJSONWithEventIDV1", "eventV1.go:.newEventFromUntrustedJSONV1", "eventV1.go:.signableEventJSON", "eventV1.go:eventV1.AuthEventIDs", "eventV1.go:eventV1.Content", "eventV1.go:eventV1.Depth", "eventV1.go:eventV1.EventID", "eventV1.go:eventV1.HistoryVisibility", "eventV1.go:eventV1.IsSticky", "eventV1.go:eventV1.JSON", "eventV1.go:eventV1.JoinRule", "eventV1.go:eventV1.MarshalJSON", "eventV1.go:eventV1.Membership", "eventV1.go:eventV1.OriginServerTS", "eventV1.go:eventV1.PowerLevels", "eventV1.go:eventV1.PrevEventIDs", "eventV1.go:eventV1.Redact", "eventV1.go:eventV1.Redacted", "eventV1.go:eventV1.Redacts", "eventV1.go:eventV1.RoomID", "eventV1.go:eventV1.SenderID", "eventV1.go:eventV1.SetUnsigned", "eventV1.go:eventV1.SetUnsignedField", "eventV1.go:eventV1.Sign", "eventV1.go:eventV1.StateKey", "eventV1.go:eventV1.StateKeyEquals", "eventV1.go:eventV1.StickyEndTime", "eventV1.go:eventV1.ToHeaderedJSON", "eventV1.go:eventV1.Type", "eventV1.go:eventV1.Unsigned", "eventV1.go:eventV1.Version", "eventV1.go:eventV1.assumedStickyStartTime", "eventV1.go:eventV1.calculatedStickyEndTime", "eventV2.go:.CheckFields", "eventV2.go:.newEventFromTrustedJSONV2", "eventV2.go:.newEventFromTrustedJSONWithEventIDV2", "eventV2.go:.newEventFromUntrustedJSONV2", "eventV2.go:eventV2.AuthEventIDs", "eventV2.go:eventV2.EventID", "eventV2.go:eventV2.MarshalJSON", "eventV2.go:eventV2.PrevEventIDs", "eventV2.go:eventV2.Redact", "eventV2.go:eventV2.SenderID", "eventV2.go:eventV2.SetUnsigned", "eventV2.go:eventV2.Sign", "eventV2.go:eventV2.populateEventID", "eventV3.go:.checkRoomID", "eventV3.go:.newEventFromTrustedJSONV3", "eventV3.go:.newEventFromTrustedJSONWithEventIDV3", "eventV3.go:.newEventFromUntrustedJSONV3", "eventV3.go:eventV3.AuthEventIDs", "eventV3.go:eventV3.RoomID", "eventV3.go:eventV3.SetUnsigned", "eventV3.go:eventV3.Sign", "event_builder.go:EventBuilder.AddAuthEvents", "event_builder.go:EventBuilder.Build", "event_builder.go:EventBuilder.SetContent", "event_builder.go:EventBuilder.SetUnsigned", "event_builder.go:.eventHashFromEventID", "event_builder.go:.toEventReference", "eventcrypto.go:.VerifyAllEventSignatures", "eventcrypto.go:.VerifyEventSignatures", "eventcrypto.go:.addContentHashesToEvent", "eventcrypto.go:.checkEventContentHash", "eventcrypto.go:.emptyAuthorisedViaServerName", "eventcrypto.go:.extractAuthorisedViaServerName", "eventcrypto.go:.getMXIDMapping", "eventcrypto.go:.membershipForSignatures", "eventcrypto.go:.referenceOfEvent", "eventcrypto.go:.referenceOfEventForVersion", "eventcrypto.go:.signEvent", "eventcrypto.go:.validateMXIDMappingSignatures", "pdu.go:.ToPDUs", "pdu.go:eventReference.MarshalJSON", "pdu.go:eventReference.UnmarshalJSON"]
 
 end VPins.C03
